@@ -466,6 +466,34 @@ def _malformed_cases(ctx, reqs, pend):
         pend.append((case, obs, False))
 
 
+def _integer_cases(ctx, reqs, pend):
+    """integer-valued positions (lists of int, int arrays) are positions too"""
+    from highdicom import spatial as sp
+    n = ctx.n(24, 300)
+    for i in range(n):
+        r = ctx.rng('int', i)
+        row, col = AXIS_PAIRS[r.randrange(24)]
+        ori = [int(x) for x in row] + [int(x) for x in col]
+        nrm = _normal([float(x) for x in ori], 'DR', 'RIGHT_HANDED')
+        s = r.choice([1, 2, 3, 5])
+        nsl = r.randint(2, 6)
+        origin = np.array([r.randint(-20, 20) for _ in range(3)])
+        ks = list(range(nsl))
+        r.shuffle(ks)
+        positions = [[int(x) for x in origin + k * s * nrm.astype(int)] for k in ks]
+        arg = positions if i % 2 == 0 else np.array(positions, dtype=np.int64)
+        st, val = _call(sp.get_volume_positions, arg, ori)
+        obs = _observe(st, val)
+        case = {'fn': 'get_volume_positions', 'integer': True, 'positions': positions, 'ori': ori, 'opts': {},
+                'expected': ('ok', float(s), ks)}
+        ctx.case(scenario='integer-positions', n=nsl, outcome=obs[0], nontrivial_key=('int', nsl, i % 2, obs[0]))
+        sc = {'expected': ('ok', float(s), ks), 'scenario': 'regular', 'opts': {}, 'normal': [float(x) for x in nrm],
+              'positions': [[float(x) for x in p] for p in positions], 's': float(s)}
+        _check_expected(ctx, case, obs, sc)
+        reqs.append(('volumePositions', {'positions': [RL(p) for p in positions], 'ori': RL(ori)}))
+        pend.append((case, obs, True))
+
+
 # ------------------------------------------------------------------ 2. numpy primitives against their declarative models (L2)
 def _primitive_cases(ctx, reqs, pend2):
     n = ctx.n(60, 1500)
@@ -678,6 +706,7 @@ def run(ctx):
     stage(lambda: _position_cases(ctx, reqs, pend), pend, 'p')
     stage(lambda: _exhaustive_perms(ctx, reqs, pend), pend, 'p')
     stage(lambda: _malformed_cases(ctx, reqs, pend), pend, 'p')
+    stage(lambda: _integer_cases(ctx, reqs, pend), pend, 'p')
     stage(lambda: _primitive_cases(ctx, reqs, pend2), pend2, 'q')
     stage(lambda: _assembly_cases(ctx, reqs, pend), pend, 'p')
     ctx._order = marks
